@@ -9,7 +9,7 @@ import (
 var rawServerDeviations = []string{
 	"frame_unknown_id", "settings_late", "settings_on_stream",
 	"headers_twice", "close_twice", "data_after_close", "no_headers", "more_to_msg", "msg_to_more",
-	"size_too_small", "size_too_big", "nil_frame", "oversize_chunk", "window_overrun",
+	"size_too_small", "size_too_big", "size_huge", "nil_frame", "oversize_chunk", "window_overrun",
 	"unary_two_responses", "unary_no_response", "window_update_huge", "window_update_zero",
 	"dup_frame", "drop_frame", "swap_frames", "no_close",
 }
@@ -52,6 +52,9 @@ func applyServerDeviation(t *rapid.T, label, kind string, reps []*replyState, c 
 		return rapid.IntRange(lo, hi).Draw(t, label+"."+l)
 	}
 	insert := func(at int, f RawFrame) {
+		if at > len(rs.fs) {
+			at = len(rs.fs) // earlier deviations may have removed frames
+		}
 		rs.fs = append(rs.fs[:at], append([]RawFrame{f}, rs.fs[at:]...)...)
 	}
 	closeIdx := func() int {
@@ -115,6 +118,14 @@ func applyServerDeviation(t *rapid.T, label, kind string, reps []*replyState, c 
 		for i := range rs.fs {
 			if rs.fs[i].Kind == "msg" {
 				rs.fs[i].Size += uint32(pos("extra", 1, 5000))
+				mark(0)
+				return ""
+			}
+		}
+	case "size_huge":
+		for i := range rs.fs {
+			if rs.fs[i].Kind == "msg" {
+				rs.fs[i].Size = uint32(rapid.SampledFrom([]int{hugeDeclared, 2 * hugeDeclared, 3 * hugeDeclared}).Draw(t, label+".size"))
 				mark(0)
 				return ""
 			}
